@@ -108,11 +108,12 @@ Lemma tails_nonempty : forallb (fun t => match t with [] => false | _ => true en
 Lemma nonempty_of (l : list str) : forallb (fun t => match t with [] => false | _ => true end) l = true -> forall t, In t l -> t <> [].
 Proof. intros H t Hin. rewrite forallb_forall in H. specialize (H t Hin). destruct t; [discriminate|discriminate]. Qed.
 
-Theorem gen_extract_enclosing_refines : forall (py_call : pyval -> pyval -> PyLib.res) (in_val head tail : str),
-  gen__extract_enclosing_text py_call (S (List.length in_val)) (vstr in_val) (vstr head) (vstr tail)
-  = (let '(h, v, t) := extract_enclosing in_val head tail in Normal (VTuple [vstr h; vstr v; vstr t])).
+Theorem gen_extract_enclosing_refines_any_fuel : forall (py_call : pyval -> pyval -> PyLib.res) (fuel : nat) (in_val head tail : str),
+  (List.length in_val < fuel)%nat ->
+  gen__extract_enclosing_text py_call fuel (vstr in_val) (vstr head) (vstr tail)
+  = (let '(h, v, t) := extract_enclosing_aux fuel in_val head tail in Normal (VTuple [vstr h; vstr v; vstr t])).
 Proof.
-  intros pc in_val head tail. unfold gen__extract_enclosing_text, extract_enclosing.
+  intros pc fuel in_val head tail Hfuel. unfold gen__extract_enclosing_text.
   rewrite heads_are, tails_are.
   match goal with |- context [py_while ?fu0 ?cond ?body ?s0] =>
     assert (Hw : forall f v h t pv ht tt, (List.length v < f)%nat ->
@@ -157,8 +158,36 @@ Proof.
           assert (S2 : shrunk v1 v2).
           { pose proof (fold_shrunk tstep ENCLOSING_TAIL (fun a b c Hc => tstep_shrunk a b c (nonempty_of _ tails_nonempty c Hc)) v1 t) as Hs. unfold str in *. rewrite E2 in Hs. exact Hs. }
           destruct (shrunk_trans _ _ _ S1 S2) as [->|Hlt]; [rewrite str_eqb_refl in Eq; discriminate|lia]. }
-  specialize (Hw (S (List.length in_val)) in_val head tail VNone VNone VNone ltac:(lia)).
+  specialize (Hw fuel in_val head tail VNone VNone VNone Hfuel).
   cbn [PyLib.bindS PyLib.bind]. rewrite Hw.
-  destruct (extract_enclosing_aux (S (List.length in_val)) in_val head tail) as [[h' v'] t']. reflexivity.
+  destruct (extract_enclosing_aux fuel in_val head tail) as [[h' v'] t']. reflexivity.
+Qed.
+
+Theorem gen_extract_enclosing_refines : forall (py_call : pyval -> pyval -> PyLib.res) (in_val head tail : str),
+  gen__extract_enclosing_text py_call (S (List.length in_val)) (vstr in_val) (vstr head) (vstr tail)
+  = (let '(h, v, t) := extract_enclosing in_val head tail in Normal (VTuple [vstr h; vstr v; vstr t])).
+Proof. intros pc in_val head tail. apply gen_extract_enclosing_refines_any_fuel. lia. Qed.
+
+(* the model's own fuel is irrelevant once it exceeds the length of the value (each round strictly shortens it or stops) *)
+Lemma extract_enclosing_aux_fuel : forall f f' v h t, (List.length v < f)%nat -> (List.length v < f')%nat ->
+  extract_enclosing_aux f v h t = extract_enclosing_aux f' v h t.
+Proof.
+  induction f as [|f IH]; intros f' v h t Hf Hf'; [lia|]. destruct f' as [|f']; [lia|]. cbn [extract_enclosing_aux].
+  destruct (strip_heads v h) as [v1 h1] eqn:E1. destruct (strip_tails v1 t) as [v2 t1] eqn:E2.
+  destruct (str_eqb v2 v) eqn:Eq; [reflexivity|].
+  rewrite strip_heads_fold in E1. rewrite strip_tails_fold in E2.
+  assert (S1 : shrunk v v1).
+  { pose proof (fold_shrunk hstep ENCLOSING_HEAD (fun a b c Hc => hstep_shrunk a b c (nonempty_of _ heads_nonempty c Hc)) v h) as Hs. unfold str in *. rewrite E1 in Hs. exact Hs. }
+  assert (S2 : shrunk v1 v2).
+  { pose proof (fold_shrunk tstep ENCLOSING_TAIL (fun a b c Hc => tstep_shrunk a b c (nonempty_of _ tails_nonempty c Hc)) v1 t) as Hs. unfold str in *. rewrite E2 in Hs. exact Hs. }
+  destruct (shrunk_trans _ _ _ S1 S2) as [->|Hlt]; [rewrite str_eqb_refl in Eq; discriminate|]. apply IH; lia.
+Qed.
+Theorem gen_extract_enclosing_refines_fuel : forall (py_call : pyval -> pyval -> PyLib.res) (fuel : nat) (in_val head tail : str),
+  (List.length in_val < fuel)%nat ->
+  gen__extract_enclosing_text py_call fuel (vstr in_val) (vstr head) (vstr tail)
+  = (let '(h, v, t) := extract_enclosing in_val head tail in Normal (VTuple [vstr h; vstr v; vstr t])).
+Proof.
+  intros pc fuel in_val head tail Hf. rewrite gen_extract_enclosing_refines_any_fuel by exact Hf. unfold extract_enclosing.
+  rewrite (extract_enclosing_aux_fuel fuel (S (List.length in_val))) by lia. reflexivity.
 Qed.
 Print Assumptions gen_extract_enclosing_refines.
